@@ -33,7 +33,11 @@
                      hash, is_subset_eq) from the same set built with set()
      "xor_as_or"     ^= implemented as |=
      "offset_div"    bit_offset computed with / instead of %
-     "subset_right"  is_subset_eq compares (l & r) with r *)
+     "subset_right"  is_subset_eq compares (l & r) with r
+     "proxy_rebind"  proxy::operator=(proxy const &) / (proxy &&) defaulted (the code as
+                     it was before "fix: bitfield proxy assignment assigns the referenced
+                     bit", 506c999): x[i] = x[j] re-seats the temporary proxy and leaves
+                     bit i alone; x[i] = x[j] = b only sets bit j *)
 EXTENDS Bitfield, Json
 
 CONSTANTS W,      \* bits per storage word (std::numeric_limits<Word>::digits)
@@ -111,6 +115,11 @@ IEff(vx, vy, a) ==
     [] a.op = "null" -> IR(INull, vy)
     [] a.op = "ilist" -> IR(ISetAll(INull, a.s, 1), vy)
     [] a.op = "init" -> IR(IInitFrom(INull, SeqToSet(a.s), 0), vy)
+    (* proxy::operator=(proxy const &): assigns the bit the other proxy refers to *)
+    [] a.op = "idxcopy" -> IR(IF Bug = "proxy_rebind" THEN vx ELSE ISet(vx, a.i, IGet(vx, a.j)), vy)
+    [] a.op = "idxcopy_y" -> IR(IF Bug = "proxy_rebind" THEN vx ELSE ISet(vx, a.i, IGet(vy, a.j)), vy)
+    [] a.op = "chain" -> IR(IF Bug = "proxy_rebind" THEN ISet(vx, a.j, a.b)
+                            ELSE ISet(ISet(vx, a.j, a.b), a.i, a.b), vy)
 
 IInit == x = Null /\ y = Null /\ hist = <<>> /\ ix = INull /\ iy = INull
 
@@ -139,6 +148,12 @@ ObserversAgree ==
   /\ IEq(ix, iy) = Eq(x, y)
   /\ ISubsetEq(ix, iy) = SubsetEq(x, y)
   /\ ISubsetEq(iy, ix) = SubsetEq(y, x)
+
+(* underlying_value: the single storage word as a number (evaluated while the word
+   fits TLC's integers) *)
+IUnderlying(ws) == SumPow2(ws[0])
+UnderlyingAgrees ==
+  (NW = 1 /\ ix[0] \subseteq 0..29) => (IUnderlying(ix) = Underlying(x) /\ Abs([k \in WordIdx |-> FromWord(IUnderlying(ix))]) = x)
 
 NoPadding == \A k \in WordIdx : ix[k] \subseteq Used(k) /\ iy[k] \subseteq Used(k)
 
